@@ -148,6 +148,13 @@ func genDijk(neg bool) func(r *rng, idx int, st stats) caseOut {
 		n, edges := randGraph(r, st, neg, false)
 		src := r.intn(n)
 		g := buildGraph(n, edges, identity(n))
+		if r.chance(40) {
+			// edges added to a COPY must not show up in the graph that is searched
+			cp := g.Copy()
+			for i := 0; i < 3; i++ {
+				cp.AddEdgeWeighted(&hv{key: r.intn(n)}, &hv{key: r.intn(n)}, 0)
+			}
+		}
 		am.VerifOrdReset(r.next(), true)
 		var dist map[interface{}]int
 		var prev map[interface{}]am.VerifVertex
